@@ -62,7 +62,12 @@ fn get_set_cached<T: Clone>(
     key: &std::path::Path,
     value_func: impl FnOnce() -> T,
 ) -> T {
-    let mut lock = cache.lock().expect("cache is poisoned");
+    // A loader that panics (missing or unparsable file) unwinds through this lock and poisons it.
+    // The map is only touched after the loader has returned, so it is always consistent: recover
+    // the guard instead of failing every later call for unrelated, valid inputs.
+    let mut lock = cache
+        .lock()
+        .unwrap_or_else(std::sync::PoisonError::into_inner);
     lock.entry(key.into()).or_insert_with(value_func).clone()
 }
 
